@@ -246,12 +246,15 @@ def real_layer(f, metrics_by_model, dims_by_model, extra_model_kw=None):
         dims = [(Dimension(name=dn, type="time", granularity="day", sql="(TIMESTAMP '2024-01-15 00:00:00' + %s * INTERVAL 20 DAY)" % JCOLS[e[2]]) if e[0] == "tdim" else
                  Dimension(name=dn, type="time", granularity="day", sql="(TIMESTAMP '2024-01-29 00:00:00' + %s * INTERVAL 2 DAY)" % JCOLS[e[2]]) if e[0] == "tdim2" else
                  Dimension(name=dn, type=("categorical" if e == jcol("s0") else "numeric"), sql=jsql_top(e))) for dn, e in uniq]
-        mets = [Metric(name=mn, agg=a, sql=(jsql(e) if e else None), filters=[jsql(x, "{model}.") for x in fl] or None) for mn, a, e, fl in metrics_by_model.get(m["name"], [])]
+        mets = [Metric(name=mn, agg=a, sql=(jsql(e) if e else None), filters=[jsql(x, "{model}.") for x in fl] or None, **METRIC_KW.get((m["name"], mn), {})) for mn, a, e, fl in metrics_by_model.get(m["name"], [])]
         kw = dict((extra_model_kw or {}).get(m["name"], {}))
         from harness import inherit
         L.add_model(inherit.maybe(Model(name=m["name"], table=m["name"], primary_key=model_pk(m), relationships=rels, dimensions=dims, metrics=mets, **kw),
                                   (m["name"], [(r_["name"], r_["type"]) for r_ in m["rels"]], [x_[0] for x_ in uniq], [x_[0] for x_ in metrics_by_model.get(m["name"], [])], len(m["rows"])), one_in=5))
     return L
+
+
+METRIC_KW = {}      # (model, metric name) -> extra Metric(...) arguments for the NEXT layers built (set and cleared by the targeted families that need them, e.g. fill_nulls_with)
 
 
 def corpus_forest():
